@@ -211,9 +211,8 @@ def check(R):
         an = R.body(FS + '::add_noc')
         from C19 import dup_fabric_rule
         dup_fabric_rule(R)
-        un = R.body(FS + '::update_noc')
-        R.cut('P2', un, 'Fabrics::update', call_bbs(un, 'fabric::Fabrics::update'), 'NOC fabric id == the fabric\'s id',
-              lambda: _cmp_false(un, 'Ne', lambda s: 'cert::CertRef::get_fabric_id' in src_calls(s), lambda s: 'fabric::Fabric::fabric_id' in src_calls(s)))
+        from C19 import update_noc_fabric_rule
+        update_noc_fabric_rule(R)
 
     # ---- d --------------------------------------------------------------------
     with R.clause('d'):
